@@ -334,9 +334,9 @@ func (it *Interp) exec(s ast.Stmt, env *Env) ctrl {
 			it.fail(s, "++/-- on a non-integer")
 		}
 		if x.Tok == token.INC {
-			it.store(x.X, env, n+1)
+			it.store(x.X, env, it.wrapInt(x.X, n+1))
 		} else {
-			it.store(x.X, env, n-1)
+			it.store(x.X, env, it.wrapInt(x.X, n-1))
 		}
 	case *ast.GoStmt:
 		// the spawned call is evaluated at once: the analyses that use the
@@ -1180,7 +1180,7 @@ func (it *Interp) eval(e ast.Expr, env *Env) Value {
 			}
 			return it.eval(x.Y, env)
 		}
-		return it.binop(e, x.Op, it.eval(x.X, env), it.eval(x.Y, env))
+		return it.wrapInt(e, it.binop(e, x.Op, it.eval(x.X, env), it.eval(x.Y, env)))
 	case *ast.CallExpr:
 		return it.call(x, env)
 	case *ast.TypeAssertExpr:
@@ -1610,6 +1610,38 @@ func (it *Interp) runDefers(frame *[]deferred) {
 		it.callValue(d.at, d.fn, d.args)
 		it.retVals = saved
 	}
+}
+
+// wrapInt: fixed-size integer arithmetic wraps around (the interpreter
+// computes in int64).
+func (it *Interp) wrapInt(e ast.Expr, v Value) Value {
+	i, ok := v.(int64)
+	if !ok {
+		return v
+	}
+	tv, ok := it.info.Types[e]
+	if !ok || tv.Type == nil {
+		return v
+	}
+	b, ok := tv.Type.Underlying().(*types.Basic)
+	if !ok {
+		return v
+	}
+	switch b.Kind() {
+	case types.Int8:
+		return int64(int8(i))
+	case types.Int16:
+		return int64(int16(i))
+	case types.Int32:
+		return int64(int32(i))
+	case types.Uint8:
+		return int64(uint8(i))
+	case types.Uint16:
+		return int64(uint16(i))
+	case types.Uint32:
+		return int64(uint32(i))
+	}
+	return v
 }
 
 func (it *Interp) convert(at ast.Node, t types.Type, v Value) Value {
